@@ -967,6 +967,10 @@ class Translator:
             if k in ("CompoundStmt",):
                 self.enum_stmts(n.get("inner", []), cx.child(), method, acc, out, bad)
             elif k == "IfStmt":
+                # an enumerator that reports a reference only under a condition: the "enumerated" set of the theorem
+                # (C05) is unconditional, so such a body is NOT understood (none exists at the pinned commit); its
+                # references are still collected for the failing-input search
+                bad.append("%s: conditional enumeration (if)" % method)
                 for c in n["inner"][1:]:
                     self.enum_stmt(c, cx.child(), method, acc, out, bad)
             elif k in ("ExprWithCleanups", "ParenExpr", "ImplicitCastExpr"):
